@@ -53,7 +53,7 @@ var specs = map[string]propSpec{
 	},
 	"C02": {
 		Units: []unitSpec{
-			{Name: "rapid-predicates", Test: "TestC02Rapid", Rapid: true, QuickChecks: 40000, ThoroughChecks: 600000, QuickShards: 4, ThoroughShards: 16},
+			{Name: "rapid-predicates", Test: "TestC02Rapid", Rapid: true, QuickChecks: 40000, ThoroughChecks: 250000, QuickShards: 4, ThoroughShards: 16, ThoroughTimeoutS: 5400},
 		},
 		Assumptions: refAssumptions("node-sets that are converted to a string or counted inside predicates are flat paths while the known findings KF-A/KF-B are confirmed present"),
 	},
@@ -108,7 +108,7 @@ var specs = map[string]propSpec{
 	},
 	"C13": {
 		Units: []unitSpec{
-			{Name: "rapid-context-composition", Test: "TestC13Rapid", Rapid: true, QuickChecks: 30000, ThoroughChecks: 500000, QuickShards: 4, ThoroughShards: 16},
+			{Name: "rapid-context-composition", Test: "TestC13Rapid", Rapid: true, QuickChecks: 30000, ThoroughChecks: 300000, QuickShards: 4, ThoroughShards: 16},
 		},
 		Assumptions: refAssumptions("addr(n) uses child::node()[i] steps (C03 fragment) and @name for attributes (attribute names are unique per element)"),
 	},
